@@ -186,6 +186,40 @@ theorem normalisations_exact (aliases : List Alias) (ref : Str) :
     normsFor aliases ref =
       aliases.flatMap (fun a => (a.mapping.filter (fun p => p.1 == ref)).map (fun p => (a.name, p.2))) := rfl
 
+/-- **every (alias, referenced rule) pair of the rule has its normalisation, whatever the alias is called**:
+nothing about the spelling of the alias name or of the target field is consulted — in particular the pair is
+present when the (mapped) target field is spelled exactly like the alias (`f = a.name`) -/
+theorem normalisation_present (aliases : List Alias) (a : Alias) (ha : a ∈ aliases) (ref f : Str)
+    (h : (ref, f) ∈ a.mapping) : (a.name, f) ∈ normsFor aliases ref := by
+  rw [normalisations_exact]
+  simp only [List.mem_flatMap, List.mem_map, List.mem_filter]
+  exact ⟨a, ha, (ref, f), ⟨h, by simp⟩, rfl⟩
+
+/-- and nothing else: a normalisation of the query comes from an alias of that name declaring that field for the rule -/
+theorem normalisation_only (aliases : List Alias) (ref n f : Str) (h : (n, f) ∈ normsFor aliases ref) :
+    ∃ a ∈ aliases, a.name = n ∧ (ref, f) ∈ a.mapping := by
+  rw [normalisations_exact] at h
+  simp only [List.mem_flatMap, List.mem_map, List.mem_filter] at h
+  obtain ⟨a, ha, p, ⟨hp, hr⟩, he⟩ := h
+  have h1 : p.1 = ref := by simpa using hr
+  have h2 : a.name = n ∧ p.2 = f := by simpa using he
+  refine ⟨a, ha, h2.1, ?_⟩
+  rw [← h1, ← h2.2]; exact hp
+
+/-- the specification side lists the same pairs for every sub-query of the rule -/
+theorem spec_normalisations_eq (k : Cfg) (aliases : List Alias) (refs : List (Str × RefInfo)) :
+    ∀ s ∈ specSubs k aliases refs, ∃ p ∈ refs, s.tag = p.2.tag ∧ s.norms = normsFor aliases p.1 := by
+  intro s hs
+  unfold specSubs at hs
+  simp only [List.mem_flatMap, List.mem_map] at hs
+  obtain ⟨p, hp, q, _, rfl⟩ := hs
+  exact ⟨p, hp, rfl, rfl⟩
+
+/-- non-vacuity: alias `user` whose target for `ra` is the field `user` itself and for `rb` another field -/
+example : normsFor [{ name := "user".toList, mapping := [("ra".toList, "user".toList), ("rb".toList, "TargetUserName".toList)] },
+                    { name := "host".toList, mapping := [("ra".toList, "Computer".toList)] }] "ra".toList
+    = [("user".toList, "user".toList), ("host".toList, "Computer".toList)] := by decide
+
 /-- the condition field `user` is renamed to two names by `exStages`: a one-to-many image is refused -/
 example : failsWith (convertCorr exCfg exEnv exStages none exRule) .config = true := by decide
 def exRule2 : Rule :=
